@@ -290,6 +290,7 @@ func checkC12(c *Ctx) {
 	runCharSpecs(c, "C12", "c12", specs, nil, c12Oracles, nil)
 	c12Strconv(c)
 	c12Foreign(c)
+	otherPlatforms(c, "C12") // type and range of what is stored, on 32-bit and non-amd64 builds too
 }
 
 // c12Strconv ties the hand-written strconv specifications of HcModel/Json.lean directly:
